@@ -167,6 +167,7 @@ type PointInfo struct {
 	Sig        uint64 // signature for divergence detection
 	Key        uint64 // HB state key before the choice
 	Preempts   int    // preemptions used before this point
+	FreeDevs   int    // non-default choices taken at non-preemptive points before this point
 }
 
 // Outcome of one execution.
@@ -207,6 +208,7 @@ type scheduler struct {
 	cur      *Thread
 	step     int
 	preempts int
+	freedevs int
 	dead     bool
 	ended    bool
 	out      Outcome
@@ -218,6 +220,7 @@ type scheduler struct {
 	live     sync.WaitGroup
 	now      int64
 	enabled  []*Thread
+	nlive    int
 }
 
 var sc = &scheduler{}
@@ -332,6 +335,7 @@ func (s *scheduler) newThread(name string, body func(), parent *Thread) *Thread 
 	t.obj.id = mix(t.canon, 0x7468)
 	t.pend = pending{kind: OpStart}
 	s.threads = append(s.threads, t)
+	s.nlive++
 	return t
 }
 
@@ -355,6 +359,7 @@ func (s *scheduler) launch(t *Thread) {
 				t.panicStk = string(debug.Stack())
 			}
 			t.finished = true
+			s.nlive--
 			s.threadExit(t)
 		}()
 		t.body()
@@ -450,6 +455,18 @@ func pointN(kind OpKind, objs []*Obj, enabled func() bool) {
 }
 
 func (s *scheduler) schedule(t *Thread) {
+	// fast path: a single live thread has nobody to interleave with
+	// (its steps are common to every execution of the scenario, so they are
+	// not folded into the happens-before hashes either)
+	if s.nlive == 1 && !s.ended && !t.yielded && !s.cfg.Trace && t.isEnabled() {
+		s.spin = 0
+		s.step++
+		if s.step > s.cfg.Horizon {
+			s.out.Horizon = true
+			s.end()
+		}
+		return
+	}
 	next := s.choose(t)
 	if next == t {
 		return
@@ -521,7 +538,7 @@ func (s *scheduler) choose(cur *Thread) *Thread {
 	}
 	idx := 0
 	if len(en) > 1 {
-		pi := PointInfo{NEnabled: len(en), CurEnabled: curEnabled, Preempts: s.preempts}
+		pi := PointInfo{NEnabled: len(en), CurEnabled: curEnabled, Preempts: s.preempts, FreeDevs: s.freedevs}
 		n := len(s.out.Choices)
 		pi.Key = s.stateKey()
 		if cur != nil {
@@ -554,6 +571,8 @@ func (s *scheduler) choose(cur *Thread) *Thread {
 		s.out.Points = append(s.out.Points, pi)
 		if idx > 0 && curEnabled {
 			s.preempts++
+		} else if idx > 0 {
+			s.freedevs++
 		}
 	}
 	t := en[idx]
@@ -635,7 +654,7 @@ func Choose(n int) int {
 		return 0
 	}
 	t := s.cur
-	pi := PointInfo{NEnabled: n, Data: true, Tid: t.id, Preempts: s.preempts}
+	pi := PointInfo{NEnabled: n, Data: true, Tid: t.id, Preempts: s.preempts, FreeDevs: s.freedevs}
 	pi.Key = mix(s.stateKey(), t.canon)
 	pi.Sig = mix(uint64(n), uint64(t.id)<<8|0xff)
 	idx := 0
